@@ -1,6 +1,6 @@
 // One scenario = one virtual disk + a sequence of user-level actions and invocations of the real
 // build() / clean() under a scheduling controller.  Everything observable is appended to the event list.
-use std::collections::{BTreeMap, VecDeque};
+use std::collections::{BTreeMap, BTreeSet, VecDeque};
 use std::sync::{Arc, Mutex};
 use serde_json::{json, Value};
 
@@ -25,7 +25,9 @@ pub enum Sched { Serial, Random(Rng), Scripted(VecDeque<String>) }
 
 struct Ctl { sched : Sched, sys : VSystem, flags : Arc<Mutex<CtlFlags>> }
 #[derive(Default)]
-pub struct CtlFlags { pub deadlock : bool, pub panics : Vec<String>, pub notenabled : usize, pub grants : usize }
+pub struct CtlFlags { pub deadlock : bool, pub hang : bool, pub panics : Vec<String>, pub notenabled : usize, pub grants : usize, pub points : usize }
+/*  scheduling points one invocation may pass before it is ended as not returning (a build of ten rules takes a few hundred) */
+pub const STEP_BUDGET : usize = 20000;
 
 impl Ctl
 {
@@ -77,6 +79,13 @@ impl Controller for Ctl
     }
 
     fn deadlock(&mut self, _blocked : &[(usize, Op)]) { self.flags.lock().unwrap().deadlock = true; }
+    fn abort(&mut self) -> bool
+    {
+        let mut f = self.flags.lock().unwrap();
+        f.points += 1;
+        if f.points > STEP_BUDGET { f.hang = true; }
+        f.hang
+    }
     fn finished(&mut self, tid : usize, panicked : bool) { if panicked { let n = self.name(tid); self.flags.lock().unwrap().panics.push(n); } }
 }
 
@@ -99,6 +108,7 @@ pub struct Scn
     pub twin : Option<Box<Scn>>,     // same history, file-state table erased before every build (C18)
     pub out : Vec<Value>,
     pub check_serial : bool,         // run every build first on a copy under the serial schedule (C06)
+    pub removed : BTreeSet<String>,  // top-level workspace directories the user has removed and not made again
 }
 
 pub const DIR : &str = ".ruler";
@@ -142,9 +152,9 @@ impl Scn
         let mut m = json!({"a" : "reset", "sc" : id, "ord" : ord, "clock" : if tick { "tick" } else { "distinct" }});
         if let (Some(o), Some(mm)) = (m.as_object_mut(), meta.as_object()) { for (k, v) in mm { o.insert(k.clone(), v.clone()); } }
         out.push(m);
-        let twin = if with_twin { Some(Box::new(Scn{sys : VSystem::new(DIR, tick), rules : vec![], ord : ord.clone(), names : Names::new(), twin : None, out : vec![], check_serial : false})) } else { None };
+        let twin = if with_twin { Some(Box::new(Scn{sys : VSystem::new(DIR, tick), rules : vec![], ord : ord.clone(), names : Names::new(), twin : None, out : vec![], check_serial : false, removed : BTreeSet::new()})) } else { None };
         if let Some(t) = &twin { t.sys.fs.lock().unwrap().quiet = true; }
-        Scn{sys : sys, rules : vec![], ord : ord, names : Names::new(), twin : twin, out : out, check_serial : false}
+        Scn{sys : sys, rules : vec![], ord : ord, names : Names::new(), twin : twin, out : out, check_serial : false, removed : BTreeSet::new()}
     }
 
     fn flush(&mut self) { let ev = self.sys.take_events(); self.out.extend(ev); }
@@ -159,8 +169,10 @@ impl Scn
         self.user_tick();
         {   /* the directories the paths of the rules live in exist (mkdir -p by the user) */
             let mut fs = self.sys.fs.lock().unwrap();
+            let removed = self.removed.clone();
             for r in rules.iter() { for p in r.tg.iter().chain(r.src.iter())
             {
+                if p.contains('/') && removed.contains(p.split('/').next().unwrap_or("")) { continue; }    /* ... but not one the user has just removed */
                 let mut at = 0;
                 while let Some(i) = p[at..].find('/') { fs.dirs.insert(p[..at + i].to_string()); at += i + 1; }
             } }
@@ -172,6 +184,7 @@ impl Scn
 
     pub fn edit(&mut self, p : &str, c : &str)
     {
+        if self.removed.contains(p.split('/').next().unwrap_or("")) && p.contains('/') { return; }
         if let Some(t) = &mut self.twin { t.edit(p, c); }
         self.user_tick();
         self.sys.put(p, c);
@@ -229,10 +242,51 @@ impl Scn
         true
     }
 
+    /*  the paths of the scenario that live under the top-level directory d */
+    pub fn paths_in(&self, d : &str) -> Vec<String>
+    {
+        let pre = format!("{}/", d);
+        self.ord.iter().filter(|p| p.starts_with(&pre)).cloned().collect()
+    }
+    pub fn top_dirs(&self) -> Vec<String>
+    {
+        let mut v : Vec<String> = self.ord.iter().filter(|p| p.contains('/')).map(|p| p.split('/').next().unwrap().to_string()).collect();
+        v.dedup(); v
+    }
+
+    /*  rm -r d: the directory goes with everything in it */
+    pub fn rmdir(&mut self, d : &str) -> bool
+    {
+        let ps = self.paths_in(d);
+        if ps.len() == 0 || self.removed.contains(d) || !self.sys.fs.lock().unwrap().dirs.contains(d) { return false; }
+        if let Some(t) = &mut self.twin { t.rmdir(d); }
+        self.user_tick();
+        self.sys.remove_tree(d);
+        self.removed.insert(d.to_string());
+        self.out.push(json!({"a" : "rmdir", "d" : d, "ps" : ps}));
+        true
+    }
+
+    /*  mkdir -p of d and of every directory of the scenario's paths under it */
+    pub fn mkdir(&mut self, d : &str) -> bool
+    {
+        let ps = self.paths_in(d);
+        if ps.len() == 0 || !self.removed.contains(d) { return false; }
+        if let Some(t) = &mut self.twin { t.mkdir(d); }
+        self.user_tick();
+        {
+            let mut fs = self.sys.fs.lock().unwrap();
+            for p in ps.iter() { let mut at = 0; while let Some(i) = p[at..].find('/') { fs.dirs.insert(p[..at + i].to_string()); at += i + 1; } }
+        }
+        self.removed.remove(d);
+        self.out.push(json!({"a" : "mkdir", "d" : d, "ps" : ps}));
+        true
+    }
+
     /*  mv / cp -p: the file keeps its stamp and mode */
     pub fn mv(&mut self, p : &str, q : &str) -> bool
     {
-        if !self.sys.exists(p) || p == q { return false; }
+        if !self.sys.exists(p) || p == q || (q.contains('/') && self.removed.contains(q.split('/').next().unwrap_or(""))) { return false; }
         if let Some(t) = &mut self.twin { t.mv(p, q); }
         self.user_tick();
         {
@@ -340,7 +394,7 @@ impl Scn
             Ok(Err(e)) => { let d = format!("{:?}", e); format!("err:{}", d.split(|c : char| !c.is_alphanumeric()).next().unwrap_or("")) },
         };
         let f = std::mem::take(&mut *flags.lock().unwrap());
-        let verdict = if aborted || f.deadlock { "deadlock".to_string() } else { verdict };
+        let verdict = if f.hang { "hang".to_string() } else if aborted || f.deadlock { "deadlock".to_string() } else { verdict };
         Outcome{verdict : verdict, errs : errs, stat : printer.stat, flags : f}
     }
 
